@@ -282,8 +282,10 @@ def codec_audit(tier):
                              f"{len(printers)} printers x {len(parsers)} parsers")
 
 
-    def bounded_stand_in(self, tier, undecided):
-        from checks import native
-        return native.stand_in(['C17.', 'C05.'], tier, undecided)
+def _bounded_stand_in17(self, tier, undecided):
+    from checks import native
+    return native.stand_in(['C17.', 'C05.'], tier, undecided)
 
+
+C17.bounded_stand_in = _bounded_stand_in17
 CHECK = C17()
